@@ -220,11 +220,15 @@ theorem C03_decapsulateRelayIndex_chain (c inner : V6.Msg6) (lvls : List Spec.RL
 
 /-- … and on a relay message one of whose levels lacks a (usable) relay-message
 option: `-1` is an error, so is every index that reaches past the break (every
-`k` with `k + 1 ≥ msgDepth c`), so is any index below `-1`; never a panic. -/
+`k` with `k + 1 ≥ msgDepth c`), so is any index below `-1`; an index that stays
+above the break returns the relay level found there, itself a broken chain;
+never a panic. -/
 theorem C03_decapsulateRelayIndex_broken (c : V6.Msg6) (h : Spec.Broken c) :
     V6.decapsulateRelayIndex c (-1) = .err ∧
     (∀ k : Nat, V6.msgDepth c ≤ k + 1 → V6.decapsulateRelayIndex c (k : Int) = .err) ∧
-    (∀ i : Int, i < -1 → V6.decapsulateRelayIndex c i = .err) :=
+    (∀ i : Int, i < -1 → V6.decapsulateRelayIndex c i = .err) ∧
+    (∀ k : Nat, V6.decapsulateRelayIndex c (k : Int) = .err ∨
+      ∃ c', V6.decapsulateRelayIndex c (k : Int) = .ok c' ∧ Spec.Broken c') :=
   V6.decapsulateRelayIndex_broken h
 
 /-- the two cases cover every relay message -/
